@@ -151,6 +151,32 @@ def dag_part(R, S, rng, quick):
         S.run(fam, 'begin_parse.to_cell', s, lambda: cell.begin_parse().to_cell(), W, expect='ok')
         S.run(fam, 'hash/eq', s, lambda: (hash(cell), cell == cell.copy(), cell.get_hash(0), cell.get_depth(0)), W, expect='ok')
         S.run(fam, 'calculate_representation_hash', s, lambda: cell.calculate_representation_hash(), W, expect='ok')
+        # equal DAGs made of distinct objects at every level: the same bag parsed twice; comparing them, looking one up in a set / dict keyed by the other, and
+        # serialising a parent that holds both must cost about the size of the DAG, not the number of its paths
+        if bocs and len(cell.refs) <= 2:
+            b0 = next(iter(bocs.values()))
+            twin1, twin2 = Cell.one_from_boc(b0), Cell.one_from_boc(b0)
+            S.run(fam, 'twin == twin', s, lambda: (twin1 == twin2, twin1 != twin2, twin2 == cell), W, expect='ok')
+            S.run(fam, 'twin in {twin}', s, lambda: (twin1 in {twin2}, {twin1: 1}.get(twin2), len({twin1, twin2, cell})), W, expect='ok')
+
+            def both():
+                return bridge.lib().Builder().store_ref(twin1).store_ref(twin2).end_cell()
+            parent2 = S.run(fam, 'parent of two twins', s, both, W, expect='ok')
+            if parent2 is not None:
+                S.run(fam, 'to_boc(parent of two twins)', 2 * s, lambda: parent2.to_boc(True, True), W, expect='ok')
+            # copies linked crosswise: each level exists as two distinct equal objects, each referring to both objects of the level below
+            if fam in ('ladder2', 'diamond') and param <= 64:
+                def cross(levels=param):
+                    B_ = bridge.lib().Builder
+                    a = B_().store_uint(1, 1).end_cell()
+                    b_ = B_().store_uint(1, 1).end_cell()
+                    for _ in range(levels):
+                        a, b_ = B_().store_ref(a).store_ref(b_).end_cell(), B_().store_ref(b_).store_ref(a).end_cell()
+                    return a, b_
+                pair = S.run(fam, 'build cross-linked twins', 4 * param + 4, cross, W, expect='ok')
+                if pair is not None:
+                    S.run(fam, 'cross-linked twins ==', 4 * param + 4, lambda: pair[0] == pair[1], W, expect='ok')
+                    S.run(fam, 'to_boc(cross-linked twins)', 4 * param + 4, lambda: (pair[0].to_boc(), pair[1].to_boc(True, True, True)), W, expect='ok')
         # derived objects are used (a builder made from the cell takes the cell itself as one more reference), then everything is serialised again: a cell
         # can never come to contain itself, so the traversals stay bounded by the same size
         if len(cell.refs) < 4 and n <= 600:
@@ -409,10 +435,16 @@ def dict_part(R, S, rng, quick):
     # ladders that yield no leaf at all: the work must then be bounded by the input (n + e), there is no output to pay for
     for d in ([8, 16, 24, 40] if quick else [4, 8, 12, 16, 20, 24, 32, 40, 64, 128]):
         pruned_leaf = rc.make_pruned(rc.RC('1'), 1)
-        for fam, top_bits, w in (('dict-overlong-label-then-ladder', '10' + '1111' + '1' * 15, 8),      # hml_long n=15 although only m=8 key bits remain: m goes negative
-                                 ('dict-overlong-same-label-then-ladder', '11' + '1' + '1111', 8),       # hml_same n=15, m=8
-                                 ('dict-pruned-leaf-ladder', None, 1023)):                              # valid empty labels, every path ends in a pruned branch
-            c = pruned_leaf
+        # every kind of cell a dictionary walk does not descend into: a pruned branch (level 1), and the exotic kinds of level 0 - a library reference, a Merkle
+        # proof / update of a level-1 subtree
+        lib_leaf = rc.make_library(bytes(range(32)))
+        proof_leaf = rc.make_merkle_proof(rc.RC('101', (pruned_leaf,)))
+        for fam, top_bits, w, end in (('dict-overlong-label-then-ladder', '10' + '1111' + '1' * 15, 8, pruned_leaf),      # hml_long n=15 although only m=8 key bits remain: m goes negative
+                                      ('dict-overlong-same-label-then-ladder', '11' + '1' + '1111', 8, pruned_leaf),       # hml_same n=15, m=8
+                                      ('dict-pruned-leaf-ladder', None, 1023, pruned_leaf),                              # valid empty labels, every path ends in a pruned branch
+                                      ('dict-library-leaf-ladder', None, 1023, lib_leaf),
+                                      ('dict-merkle-proof-leaf-ladder', None, 1023, proof_leaf)):
+            c = end
             for i in range(d):
                 c = rc.RC('00', (c, c))
             if top_bits:
